@@ -289,3 +289,55 @@ pub fn reset_acked_native(reset: bool) -> u32 {
         2
     }
 }
+
+/// Native replay body for the E2 slice query `e2_retransmit_all_for_0rtt_iteration` (C17 / C01): a client
+/// writes `len_` bytes of early data on a stream and finishes it; the data (all of it, or - `partial` - only
+/// what fits a small packet, nothing when there is no data) is sent in 0-RTT packets; a Retry then discards
+/// those packets and `retransmit_all_for_0rtt` runs.  What is sent afterwards must cover the stream from
+/// offset 0 to its end and carry the FIN - also for a stream that consists of a FIN only.
+pub fn retransmit_all_0rtt_native(len_: u8, partial: bool) -> u32 {
+    use super::state::verif::{mk_streams, Scalars};
+    let mut st = mk_streams(&Scalars { max: [10, 10], max_data: 1 << 20, send_window: 1 << 20, ..Default::default() });
+    let mut pending = Retransmits::default();
+    let conn_state = crate::connection::State::Established;
+    let id = {
+        let mut s = Streams { state: &mut st, conn_state: &conn_state };
+        s.open(Dir::Uni).expect("stream credit available")
+    };
+    st.send.get_mut(&id).map(get_or_insert_send(VarInt::from_u32(1 << 16)));
+    let data = [7u8; 255];
+    {
+        let mut ss = SendStream { id, state: &mut st, pending: &mut pending, conn_state: &conn_state };
+        if len_ > 0 {
+            assert!(ss.write(&data[..len_ as usize]).unwrap_or(0) == len_ as usize);
+        }
+        ss.finish().expect("finish succeeds");
+    }
+    // the first flight
+    let mut buf = Vec::new();
+    if partial {
+        if len_ > 0 {
+            let _ = st.write_stream_frames(&mut buf, 60, false);
+        }
+    } else {
+        let sent = st.write_stream_frames(&mut buf, 1200, false);
+        assert!(sent.iter().any(|m| m.id == id && m.fin), "the first flight carries the FIN");
+    }
+    // Retry: every 0-RTT packet is forgotten
+    st.retransmit_all_for_0rtt();
+    let mut covered = 0u64;
+    let mut fin = false;
+    for _ in 0..8 {
+        let mut buf = Vec::new();
+        for m in st.write_stream_frames(&mut buf, 1200, false) {
+            if m.id == id {
+                assert!(m.offsets.start <= covered, "a gap at offset {} was never sent again", covered);
+                covered = covered.max(m.offsets.end);
+                fin |= m.fin;
+            }
+        }
+    }
+    assert!(covered == len_ as u64, "only {} of {} early bytes were sent again after the Retry", covered, len_);
+    assert!(fin, "the end of the early stream was not sent again after the Retry");
+    1 + (len_ == 0) as u32 + 2 * partial as u32
+}
